@@ -41,7 +41,7 @@ func (round *round2) Start() *tss.Error {
 	i := round.PartyID().Index
 
 	// 6. verify dln proofs, store r1 message pieces, ensure uniqueness of h1j, h2j
-	h1H2Map := make(map[string]struct{}, len(round.temp.kgRound1Messages)*2)
+	h1H2Map := make(map[string]int, len(round.temp.kgRound1Messages)*2)
 	dlnProof1FailCulprits := make([]*tss.PartyID, len(round.temp.kgRound1Messages))
 	dlnProof2FailCulprits := make([]*tss.PartyID, len(round.temp.kgRound1Messages))
 	wg := new(sync.WaitGroup)
@@ -61,13 +61,13 @@ func (round *round2) Start() *tss.Error {
 			return round.WrapError(errors.New("got NTildej with insufficient bits for this party"), msg.GetFrom())
 		}
 		h1JHex, h2JHex := hex.EncodeToString(H1j.Bytes()), hex.EncodeToString(H2j.Bytes())
-		if _, found := h1H2Map[h1JHex]; found {
-			return round.WrapError(errors.New("this h1j was already used by another party"), msg.GetFrom())
+		if k, found := h1H2Map[h1JHex]; found {
+			return round.WrapError(errors.New("this h1j was already used by another party"), round.duplicateCulprits(j, k)...)
 		}
-		if _, found := h1H2Map[h2JHex]; found {
-			return round.WrapError(errors.New("this h2j was already used by another party"), msg.GetFrom())
+		if k, found := h1H2Map[h2JHex]; found {
+			return round.WrapError(errors.New("this h2j was already used by another party"), round.duplicateCulprits(j, k)...)
 		}
-		h1H2Map[h1JHex], h1H2Map[h2JHex] = struct{}{}, struct{}{}
+		h1H2Map[h1JHex], h1H2Map[h2JHex] = j, j
 
 		wg.Add(2)
 		_j := j
